@@ -7,6 +7,7 @@ mod engine;
 mod engine_cli;
 mod engine_fsfault;
 mod engine_imports;
+mod engine_logger;
 mod gen_project;
 mod job;
 mod prng;
